@@ -61,7 +61,7 @@ def shapes_for(suffix):
     special = suffix in ("Makefile", "makefile", "go.mod", "go.sum", "go.work")
     base = suffix if special else "x." + suffix
     out = [("plain", base), ("two-dots", "x.y." + suffix), ("dotted-dir", "dir.with.dots/" + base),
-           ("ext-named-dir", "py/a.rs/" + base), ("hidden-via-diff", "." + ("x." + suffix)),
+           ("ext-named-dir", "py/a.rs/" + base), ("hidden-via-diff", "." + ("x." + suffix)), ("dot-only-via-diff", "cfg.d/." + suffix),
            ("bak", base + ".bak"), ("tilde", base + "~")]
     up = suffix.upper() if suffix != suffix.upper() else suffix.lower()
     out.append(("case-variant", "x." + up))
@@ -142,15 +142,21 @@ def compare(ctx, name, emap, shape, desc, out, hidden=False):
             out.append(Case(HELD, key=key, nontrivial=nontrivial, evals=2, sets=sets, counters={"skipped_names": 1},
                             sample={"name": name, "emap": emap, "expected_grammar": None, "listing": {}}))
         return
-    # (1) a file valid in grammar g, with construction truth
+    # (1) a file valid in grammar g, with construction truth (not for Swift: see the recorded C03 finding; the fingerprint
+    # comparison below still covers the name -> grammar mapping of .swift)
     lang = g if g != "go" or not name.endswith(("go.mod", "go.sum", "go.work")) else "gomod"
+    if g == "swift":
+        lang = None
     r = rng("c16file", g, desc.get("seed", 0))
-    gf = gen.gen_file(r, lang if lang in langs.LANGS else g, gen.Opts(max_blocks=5, max_depth=2))
-    res = _list(ctx, name, gf.data, eargs, via_diff=hidden)
-    want = ("blocks", tuple((b.name, b.line, b.col) for b in gf.blocks))
-    got = fingerprint(res, name)
+    if lang is not None:
+        gf = gen.gen_file(r, lang if lang in langs.LANGS else g, gen.Opts(max_blocks=5, max_depth=2))
+        res = _list(ctx, name, gf.data, eargs, via_diff=hidden)
+        want = ("blocks", tuple((b.name, b.line, b.col) for b in gf.blocks))
+        got = fingerprint(res, name)
     key = h(base_key + ["valid", g])
-    if got != want:
+    if lang is None:
+        pass
+    elif got != want:
         out.append(Case(VIOLATED, key=key, nontrivial=nontrivial, sig="C16/wrong-grammar/%s/%s" % (shape, got[0]), evals=1, sets=sets,
                         summary="name %r (-E %s) should be parsed as %s: expected blocks %s, got %s" % (name, emap, g, want[1][:4], str(got)[:300]),
                         witness={"name": name, "emap": emap, "content": gf.data.decode("utf-8", "replace")[:2000], "desc": desc,
@@ -177,7 +183,7 @@ def run_job(job, ctx):
     k = job["k"]
     if k == "shapes":
         for shape, name in shapes_for(job["suffix"]):
-            compare(ctx, name, {}, shape, job, out, hidden=(shape == "hidden-via-diff"))
+            compare(ctx, name, {}, shape, job, out, hidden=shape.endswith("-via-diff"))
     elif k == "emap":
         s = job["suffix"]
         others = [x for x in langs.ALL_SUFFIXES if langs.GRAMMAR_OF_SUFFIX[x] != langs.GRAMMAR_OF_SUFFIX[s] and "." not in x]
